@@ -87,11 +87,65 @@ def extra_scenarios(coll, stats):
                          {'scenario': 'two-apps'}, {'carried': carried})
 
 
+def split_batch_scenario(coll, stats):
+    """An app whose two pending evolutions are forced into different
+    batches by a migration dependency: the evolutions carried by each
+    applying/applied_evolution pair must be exactly those whose SQL runs
+    between the pair."""
+    from vf.checks import c09_pipeline as CP
+    from django_evolution import management
+    for deps in ([(('va', 'a2'), ('AFTER_MIGRATIONS',
+                                  ('vm', '0002_add_x')))],
+                 [(('va', 'a1'), ('BEFORE_MIGRATIONS',
+                                  ('vm', '0001_initial')))],
+                 []):
+        img = CP.start_image(False)
+        CP.install(2, deps)
+        B.restore(img, 'default')
+        B.reset_globals()
+        seq = [0]
+        tracer = O.Tracer('default', seq=seq)
+        lock = management._evolve_lock
+        with O.SignalLog(seq) as log:
+            res = D.d2_all(tracer=tracer)
+        stats['extra_runs'] += 1
+        replay = {'scenario': 'split-batches', 'deps': str(deps)}
+        if not res.ok:
+            coll.add('C17|split-batch-run-fails|%s' % res.exc_type, replay,
+                     {'error': str(res.exc)[:200]})
+            continue
+        for clause, detail in acceptor.check(
+                log.events, tracer.statements, 'ok', lock,
+                management._evolve_lock, saved=True):
+            coll.add('C17|%s|split-batches' % clause, replay, detail)
+        evs = log.events
+        for i, (sq, name, p) in enumerate(evs):
+            if name != 'applying_evolution':
+                continue
+            ends = [e[0] for e in evs[i + 1:]
+                    if e[1] == 'applied_evolution']
+            end = min(ends) if ends else 10 ** 9
+            between = [(q, pr) for (s_, q, pr, f) in tracer.statements
+                       if sq < s_ < end and O.is_effect(q)]
+            executed = [(u[1], u[2]) for u in CP.units_from_sql(between)
+                        if u[0] == 'e']
+            carried = [tuple(e) for e in p['evolutions']]
+            # units executed earlier in the run are not re-detected by the
+            # recogniser, so compare as "carried but not executed here"
+            extra = [e for e in carried if e not in executed]
+            if extra and not deps == []:
+                coll.add('C17|payload-names-evolutions-not-executed-between-'
+                         'the-pair|split-batches', replay,
+                         {'carried': carried, 'executed': executed})
+                break
+
+
 def run(tier, seed, confirm=True):
     t0 = time.time()
     total, coll, tasks = c07.run(tier, seed, confirm=False, prop='C17')
     stats = {'extra_runs': 0}
     extra_scenarios(coll, stats)
+    split_batch_scenario(coll, stats)
     coverage = {
         'evaluations': total['runs'] + stats['extra_runs'],
         'distinct_nontrivial': total['faulted_runs'] + total['programs'],
@@ -122,6 +176,7 @@ def replay(path):
     if 'scenario' in r:
         coll = findings.Collector('C17')
         extra_scenarios(coll, {'extra_runs': 0})
+        split_batch_scenario(coll, {'extra_runs': 0})
         for fp in coll.by_fp:
             print('  ', fp)
         if doc['fingerprint'] in coll.by_fp:
